@@ -21,6 +21,7 @@
 
 #include "EbSvtAv1Dec.h"
 #include "EbDecHandle.h"
+#include "EbVerifHooks.h"
 #include "EbDecMemInit.h"
 
 #include "EbObuParse.h"
@@ -346,13 +347,21 @@ EbErrorType dec_system_resource_init(EbDecHandle *dec_handle_ptr, TilesInfo *til
 
     dec_mt_frame_data->temp_mutex = svt_create_mutex();
 
+    SVT_VERIF_HB_RELEASE(&dec_mt_frame_data->start_motion_proj);
     dec_mt_frame_data->start_motion_proj  = EB_FALSE;
+    SVT_VERIF_HB_RELEASE(&dec_mt_frame_data->start_parse_frame);
     dec_mt_frame_data->start_parse_frame  = EB_FALSE;
+    SVT_VERIF_HB_RELEASE(&dec_mt_frame_data->start_decode_frame);
     dec_mt_frame_data->start_decode_frame = EB_FALSE;
+    SVT_VERIF_HB_RELEASE(&dec_mt_frame_data->start_lf_frame);
     dec_mt_frame_data->start_lf_frame     = EB_FALSE;
+    SVT_VERIF_HB_RELEASE(&dec_mt_frame_data->start_cdef_frame);
     dec_mt_frame_data->start_cdef_frame   = EB_FALSE;
+    SVT_VERIF_HB_RELEASE(&dec_mt_frame_data->start_lr_frame);
     dec_mt_frame_data->start_lr_frame     = EB_FALSE;
+    SVT_VERIF_HB_RELEASE(&dec_mt_frame_data->num_threads_cdefed);
     dec_mt_frame_data->num_threads_cdefed = 0;
+    SVT_VERIF_HB_RELEASE(&dec_mt_frame_data->num_threads_lred);
     dec_mt_frame_data->num_threads_lred   = 0;
 
     /************************************
@@ -376,7 +385,9 @@ EbErrorType dec_system_resource_init(EbDecHandle *dec_handle_ptr, TilesInfo *til
     memory_map_end_address = svt_dec_memory_map;
 
     if (EB_FALSE == dec_handle_ptr->start_thread_process) {
+        SVT_VERIF_HB_RELEASE(&dec_mt_frame_data->end_flag);
         dec_mt_frame_data->end_flag           = EB_FALSE;
+        SVT_VERIF_HB_RELEASE(&dec_mt_frame_data->num_threads_exited);
         dec_mt_frame_data->num_threads_exited = 0;
 
         if (num_lib_threads > 0) {
@@ -488,6 +499,7 @@ void parse_frame_tiles(EbDecHandle *dec_handle_ptr, DecThreadCtxt *thread_ctxt) 
     while (*start_parse_frame != EB_TRUE)
         svt_block_on_semaphore(NULL == thread_ctxt ? dec_handle_ptr->thread_semaphore
                                                    : thread_ctxt->thread_semaphore);
+    SVT_VERIF_HB_ACQUIRE(start_parse_frame);
 
 #if MT_WAIT_PROFILE
     dec_display_timer("SPF", &timer, th_cnt, fp);
@@ -498,6 +510,7 @@ void parse_frame_tiles(EbDecHandle *dec_handle_ptr, DecThreadCtxt *thread_ctxt) 
 #endif
         int32_t tile_num = get_sb_row_to_process(&dec_mt_frame_data->parse_tile_info);
         if (-1 != tile_num) {
+            SVT_VERIF_HB_RELEASE(&dec_mt_frame_data->start_decode_frame);
             dec_mt_frame_data->start_decode_frame = EB_TRUE;
             if (EB_ErrorNone != parse_tile_job(dec_handle_ptr, tile_num)) {
                 SVT_LOG("\nParse Issue for Tile %d", tile_num);
@@ -532,6 +545,7 @@ void decode_frame_tiles(EbDecHandle *dec_handle_ptr, DecThreadCtxt *thread_ctxt)
     while (*start_decode_frame != EB_TRUE)
         svt_block_on_semaphore(NULL == thread_ctxt ? dec_handle_ptr->thread_semaphore
                                                    : thread_ctxt->thread_semaphore);
+    SVT_VERIF_HB_ACQUIRE(start_decode_frame);
 
 #if MT_WAIT_PROFILE
     dec_display_timer("SDF", &timer, th_cnt, fp);
@@ -774,6 +788,7 @@ void dec_av1_loop_filter_frame_mt(EbDecHandle *dec_handle, EbPictureBufferDesc *
     while (*start_lf_frame != EB_TRUE)
         svt_block_on_semaphore(NULL == thread_ctxt ? dec_handle->thread_semaphore
                                                    : thread_ctxt->thread_semaphore);
+    SVT_VERIF_HB_ACQUIRE(start_lf_frame);
 #if MT_WAIT_PROFILE
     dec_display_timer("SLF", &timer, th_cnt, fp);
 #endif
@@ -861,6 +876,13 @@ void dec_av1_loop_filter_frame_mt(EbDecHandle *dec_handle, EbPictureBufferDesc *
 #if MT_WAIT_PROFILE
             dec_display_timer("LFWR", &timer, th_cnt, fp);
 #endif
+#ifdef SVT_AV1_VERIF
+            for (int i = 0; i < tiles_info->tile_cols; i++) {
+                SVT_VERIF_HB_ACQUIRE(&dec_mt_frame_data->sb_recon_row_map[row_index[0] + i]);
+                SVT_VERIF_HB_ACQUIRE(&dec_mt_frame_data->sb_recon_row_map[row_index[1] + i]);
+                SVT_VERIF_HB_ACQUIRE(&dec_mt_frame_data->sb_recon_row_map[row_index[2] + i]);
+            }
+#endif
             if (!dec_handle->frame_header.allow_intrabc) {
                 if (dec_handle->frame_header.loop_filter_params.filter_level[0] ||
                     dec_handle->frame_header.loop_filter_params.filter_level[1]) {
@@ -878,6 +900,7 @@ void dec_av1_loop_filter_frame_mt(EbDecHandle *dec_handle, EbPictureBufferDesc *
                     dec_handle, tile_rect_p, sb_row - 1, src, stride, num_planes);
 
                 /* Update LF done map */
+                SVT_VERIF_HB_RELEASE(&dec_mt_frame_data1->lf_row_map[sb_row - 1]);
                 dec_mt_frame_data1->lf_row_map[sb_row - 1] = 1;
             }
             if (sb_row == dec_mt_frame_data->sb_rows - 1) {
@@ -885,6 +908,7 @@ void dec_av1_loop_filter_frame_mt(EbDecHandle *dec_handle, EbPictureBufferDesc *
                     dec_handle, tile_rect_p, sb_row, src, stride, num_planes);
 
                 /* Update LF done map */
+                SVT_VERIF_HB_RELEASE(&dec_mt_frame_data1->lf_row_map[sb_row]);
                 dec_mt_frame_data1->lf_row_map[sb_row] = 1;
             }
         } else
@@ -926,6 +950,7 @@ void svt_cdef_frame_mt(EbDecHandle *dec_handle_ptr, DecThreadCtxt *thread_ctxt) 
     while (*start_cdef_frame != EB_TRUE)
         svt_block_on_semaphore(NULL == thread_ctxt ? dec_handle_ptr->thread_semaphore
                                                    : thread_ctxt->thread_semaphore);
+    SVT_VERIF_HB_ACQUIRE(start_cdef_frame);
 
 #if MT_WAIT_PROFILE
     dec_display_timer("SCF", &timer, th_cnt, fp);
@@ -1005,6 +1030,7 @@ void svt_cdef_frame_mt(EbDecHandle *dec_handle_ptr, DecThreadCtxt *thread_ctxt) 
                 (volatile int32_t *)&dec_mt_frame_data->lf_row_map[sb_row + offset];
             while (!*start_cdef)
                 ;
+            SVT_VERIF_HB_ACQUIRE(start_cdef);
             assert(*start_cdef == 1);
 #if MT_WAIT_PROFILE
             dec_display_timer("CWLF", &timer, th_cnt, fp);
@@ -1044,6 +1070,7 @@ void svt_cdef_frame_mt(EbDecHandle *dec_handle_ptr, DecThreadCtxt *thread_ctxt) 
                 }
             }
             /* Update CDEF done map */
+            SVT_VERIF_HB_RELEASE(&dec_mt_frame_data1->cdef_completed_for_row_map[sb_row]);
             dec_mt_frame_data1->cdef_completed_for_row_map[sb_row] = 1;
 
         } else
@@ -1057,12 +1084,14 @@ void svt_cdef_frame_mt(EbDecHandle *dec_handle_ptr, DecThreadCtxt *thread_ctxt) 
         for (int32_t pli = 0; pli < num_planes; pli++) { svt_aom_free(colbuf[pli]); }
 
     svt_block_on_mutex(dec_mt_frame_data->temp_mutex);
+    SVT_VERIF_HB_RELEASE(&dec_mt_frame_data->num_threads_cdefed);
     dec_mt_frame_data->num_threads_cdefed++;
     svt_release_mutex(dec_mt_frame_data->temp_mutex);
     if (do_upscale) {
         volatile uint32_t *num_threads_cdefed = &dec_mt_frame_data->num_threads_cdefed;
         while (*num_threads_cdefed != dec_handle_ptr->dec_config.threads)
             ;
+        SVT_VERIF_HB_ACQUIRE(num_threads_cdefed);
     }
 }
 
@@ -1166,6 +1195,7 @@ void dec_av1_loop_restoration_filter_frame_mt(EbDecHandle *dec_handle, DecThread
     while (*start_lr_frame != EB_TRUE)
         svt_block_on_semaphore(NULL == thread_ctxt ? dec_handle->thread_semaphore
                                                    : thread_ctxt->thread_semaphore);
+    SVT_VERIF_HB_ACQUIRE(start_lr_frame);
 
     EbPictureBufferDesc *recon_picture_ptr = dec_handle->cur_pic_buf[0]->ps_pic_buf;
     const int32_t        num_planes        = av1_num_planes(&dec_handle->seq_header.color_config);
@@ -1231,6 +1261,7 @@ void dec_av1_loop_restoration_filter_frame_mt(EbDecHandle *dec_handle, DecThread
                 (volatile int32_t *)&dec_mt_frame_data->cdef_completed_for_row_map[sb_row];
             while (!*start_lr)
                 ;
+            SVT_VERIF_HB_ACQUIRE(start_lr);
 
             LrCtxt *lr_ctxt = (LrCtxt *)dec_handle->pv_lr_ctxt;
 
@@ -1289,19 +1320,27 @@ void dec_av1_loop_restoration_filter_frame_mt(EbDecHandle *dec_handle, DecThread
                         sy);
 
             /* Update LR done map */
+            SVT_VERIF_HB_RELEASE(&dec_mt_frame_data->lr_row_map[sb_row]);
             dec_mt_frame_data->lr_row_map[sb_row] = 1;
         } else
             break;
     }
 
     svt_block_on_mutex(dec_mt_frame_data->temp_mutex);
+    SVT_VERIF_HB_RELEASE(&dec_mt_frame_data->num_threads_lred);
     dec_mt_frame_data->num_threads_lred++;
     if (dec_handle->dec_config.threads == dec_mt_frame_data->num_threads_lred) {
+        SVT_VERIF_HB_RELEASE(&dec_mt_frame_data->start_motion_proj);
         dec_mt_frame_data->start_motion_proj  = EB_FALSE;
+        SVT_VERIF_HB_RELEASE(&dec_mt_frame_data->start_parse_frame);
         dec_mt_frame_data->start_parse_frame  = EB_FALSE;
+        SVT_VERIF_HB_RELEASE(&dec_mt_frame_data->start_decode_frame);
         dec_mt_frame_data->start_decode_frame = EB_FALSE;
+        SVT_VERIF_HB_RELEASE(&dec_mt_frame_data->start_lf_frame);
         dec_mt_frame_data->start_lf_frame     = EB_FALSE;
+        SVT_VERIF_HB_RELEASE(&dec_mt_frame_data->start_cdef_frame);
         dec_mt_frame_data->start_cdef_frame   = EB_FALSE;
+        SVT_VERIF_HB_RELEASE(&dec_mt_frame_data->start_lr_frame);
         dec_mt_frame_data->start_lr_frame     = EB_FALSE;
     }
     svt_release_mutex(dec_mt_frame_data->temp_mutex);
@@ -1310,6 +1349,8 @@ void dec_av1_loop_restoration_filter_frame_mt(EbDecHandle *dec_handle, DecThread
     while (*num_threads_lred != dec_handle->dec_config.threads &&
            EB_FALSE == dec_mt_frame_data->end_flag)
         ;
+    SVT_VERIF_HB_ACQUIRE(num_threads_lred);
+    SVT_VERIF_HB_ACQUIRE(&dec_mt_frame_data->end_flag);
 }
 
 void *dec_all_stage_kernel(void *input_ptr) {
@@ -1321,6 +1362,7 @@ void *dec_all_stage_kernel(void *input_ptr) {
     volatile EbBool *start_thread = (volatile EbBool *)&dec_handle_ptr->start_thread_process;
     while (*start_thread == EB_FALSE)
         ;
+    SVT_VERIF_HB_ACQUIRE(start_thread);
 
     while (1) {
         /* Motion Field Projection */
@@ -1342,7 +1384,9 @@ void *dec_all_stage_kernel(void *input_ptr) {
         dec_av1_loop_restoration_filter_frame_mt(dec_handle_ptr, thread_ctxt);
 
         if (EB_TRUE == dec_mt_frame_data->end_flag) {
+            SVT_VERIF_HB_ACQUIRE(&dec_mt_frame_data->end_flag);
             svt_block_on_mutex(dec_mt_frame_data->temp_mutex);
+            SVT_VERIF_HB_RELEASE(&dec_mt_frame_data->num_threads_exited);
             dec_mt_frame_data->num_threads_exited++;
             svt_release_mutex(dec_mt_frame_data->temp_mutex);
             break;
@@ -1364,33 +1408,43 @@ static void svt_av1_sleep(const int milliseconds) {
 void dec_sync_all_threads(EbDecHandle *dec_handle_ptr) {
     DecMtFrameData *dec_mt_frame_data =
         &dec_handle_ptr->main_frame_buf.cur_frame_bufs[0].dec_mt_frame_data;
+    SVT_VERIF_HB_RELEASE(&dec_mt_frame_data->end_flag);
     dec_mt_frame_data->end_flag = EB_TRUE;
 
     /* To make all worker exit except main thread! */
+    SVT_VERIF_HB_RELEASE(&dec_mt_frame_data->num_threads_cdefed);
     dec_mt_frame_data->num_threads_cdefed = 1;
+    SVT_VERIF_HB_RELEASE(&dec_mt_frame_data->num_threads_lred);
     dec_mt_frame_data->num_threads_lred   = 1;
 
     /* To make all worker exit except main thread! */
+    SVT_VERIF_HB_RELEASE(&dec_mt_frame_data->num_threads_header);
     dec_mt_frame_data->num_threads_header          = 1;
     dec_handle_ptr->frame_header.use_ref_frame_mvs = 0;
+    SVT_VERIF_HB_RELEASE(&dec_mt_frame_data->start_motion_proj);
     dec_mt_frame_data->start_motion_proj           = EB_TRUE;
 
+    SVT_VERIF_HB_RELEASE(&dec_mt_frame_data->start_parse_frame);
     dec_mt_frame_data->start_parse_frame = EB_TRUE;
     svt_post_semaphore(dec_handle_ptr->thread_semaphore);
     for (uint32_t lib_thrd = 0; lib_thrd < dec_handle_ptr->dec_config.threads - 1; lib_thrd++)
         svt_post_semaphore(dec_handle_ptr->thread_ctxt_pa[lib_thrd].thread_semaphore);
+    SVT_VERIF_HB_RELEASE(&dec_mt_frame_data->start_decode_frame);
     dec_mt_frame_data->start_decode_frame = EB_TRUE;
     svt_post_semaphore(dec_handle_ptr->thread_semaphore);
     for (uint32_t lib_thrd = 0; lib_thrd < dec_handle_ptr->dec_config.threads - 1; lib_thrd++)
         svt_post_semaphore(dec_handle_ptr->thread_ctxt_pa[lib_thrd].thread_semaphore);
+    SVT_VERIF_HB_RELEASE(&dec_mt_frame_data->start_lf_frame);
     dec_mt_frame_data->start_lf_frame = EB_TRUE;
     svt_post_semaphore(dec_handle_ptr->thread_semaphore);
     for (uint32_t lib_thrd = 0; lib_thrd < dec_handle_ptr->dec_config.threads - 1; lib_thrd++)
         svt_post_semaphore(dec_handle_ptr->thread_ctxt_pa[lib_thrd].thread_semaphore);
+    SVT_VERIF_HB_RELEASE(&dec_mt_frame_data->start_cdef_frame);
     dec_mt_frame_data->start_cdef_frame = EB_TRUE;
     svt_post_semaphore(dec_handle_ptr->thread_semaphore);
     for (uint32_t lib_thrd = 0; lib_thrd < dec_handle_ptr->dec_config.threads - 1; lib_thrd++)
         svt_post_semaphore(dec_handle_ptr->thread_ctxt_pa[lib_thrd].thread_semaphore);
+    SVT_VERIF_HB_RELEASE(&dec_mt_frame_data->start_lr_frame);
     dec_mt_frame_data->start_lr_frame = EB_TRUE;
     svt_post_semaphore(dec_handle_ptr->thread_semaphore);
     for (uint32_t lib_thrd = 0; lib_thrd < dec_handle_ptr->dec_config.threads - 1; lib_thrd++)
@@ -1398,6 +1452,7 @@ void dec_sync_all_threads(EbDecHandle *dec_handle_ptr) {
 
     while (dec_mt_frame_data->num_threads_exited != dec_handle_ptr->dec_config.threads - 1)
         svt_av1_sleep(5);
+    SVT_VERIF_HB_ACQUIRE(&dec_mt_frame_data->num_threads_exited);
 
     /*Destroying lib created thread's*/
     EB_DESTROY_THREAD_ARRAY(dec_handle_ptr->decode_thread_handle_array,
